@@ -84,13 +84,14 @@ def codeLetter? (e : List Char) : Option Char :=
   3. no later pattern contains `~`;
   4. codes are pairwise distinct;
   5. the code letter of entry `i` does not occur in the pattern of any later entry `j > i`;
-  6. patterns are ASCII and contain no `%` (so `unquote(head + pattern)` leaves the pattern alone). -/
+  6. patterns are ASCII and contain no `%` (so `unquote(head + pattern)` leaves the pattern alone);
+  7. every code letter is left alone by `quote` (otherwise `~c` would be torn apart: `~%XX`). -/
 def laterOK : EscTable → Bool
   | [] => true
   | (_, e) :: rest =>
     (match codeLetter? e with
       | none => false
-      | some c => rest.all (fun q => !q.1.contains c && q.2 != e))
+      | some c => quoteSafe c && rest.all (fun q => !q.1.contains c && q.2 != e))
     && laterOK rest
 
 def tableOK (tbl : EscTable) : Bool :=
